@@ -1454,7 +1454,13 @@ class FortranFile:
 
             # Parse documentation strings to AST nodes, this implicitly operates
             # on docs, i.e. appends or nullifies it
-            idx = self.parse_docs(line, line_no, file_ast, docs, docs_line)
+            # (a statement that shares its line with others is never a comment, and
+            # the documentation trailing the line belongs to the last of them)
+            idx = (
+                self.parse_docs(line, line_no, file_ast, docs, docs_line)
+                if get_full
+                else False
+            )
             if idx:
                 line_no = idx
                 line_no_end = line_no
